@@ -111,6 +111,9 @@ func TestVerif_C38(t *testing.T) {
 		}
 		return
 	}
+	// part M: connection histories through the real Manager (manager_test.go); first, it is cheap and must not
+	// depend on how much of the deadline the schedule parts leave
+	c38ManagerPart(r)
 	type cfg struct{ threads, calls, bound int }
 	cfgs := vmc.Pick(r, []cfg{{2, 2, -1}, {3, 1, -1}, {3, 2, 3}}, []cfg{{2, 3, -1}, {3, 2, -1}, {3, 3, 4}, {4, 2, 4}})
 	for _, viaConn := range []bool{false, true} {
@@ -135,8 +138,6 @@ func TestVerif_C38(t *testing.T) {
 			}
 		}
 	}
-	// part M: connection histories through the real Manager (manager_test.go)
-	c38ManagerPart(r)
 	// sequential supplement
 	for _, dialer := range []bool{true, false} {
 		a := transport.NewStreamIDAllocator(dialer)
